@@ -27,7 +27,7 @@ ones here (from the owners' definitions, nothing added to their files) — and s
 | ExtendService / Merge | `Merge.extendService`, `Merge.merge` (C04) | `extendService_never_panics`, `merge_never_panics` | every pair of trees |
 | ApplyInclude | `C01.Inc.loadModel` (C01) | `include_terminates`, no panic constructor reachable (`Inc.loadModel_ne_panic`) | every file system |
 | EnforceUnicity (both runs) | `Unicity.enforceTop` (C04) | `enforceTop_never_panics` | every tree |
-| Canonical | `Short.canonical` (C03) | `canonical_only_panic_site` (here) | every tree: ok, err, or the ONE site `transformKeyValue` `e.(string)` — see below |
+| Canonical | `Short.canonical` (C03) | `canonical_never_panics` (here) | every tree (since the round-5 repair of `transformKeyValue`; before: ok, err, or that ONE site) |
 | OmitEmpty | `C01.omitEmptyTop` (C01) | `omitEmpty_total`, `omitEmpty_leaves_no_nil` | every tree |
 | SetDefaultValues | `C11.setDefaultValues` (C11) | `setDefaultValues_never_panics` (here) | every tree, every table |
 | validation.Validate | `Validate.validate` (C10) | `validate_only_panic_sites` (here) | every tree: ok, err, or one of THREE sites, each `schema`-guarded — see below |
@@ -35,9 +35,12 @@ ones here (from the owners' definitions, nothing added to their files) — and s
 | Normalize (+ normalizeNetworks, setNameFromKey) | `C11.normalize` (C11) | `normalize_never_panics` | every tree |
 
 Left to the site review (`Props/C01Sites.lean`) and the oracle, not to a theorem:
-* `transformKeyValue`'s `e.(string)`: reachable in the *model* of `Canonical` on any tree; in the pipeline the first
-  `EnforceUnicity` (its `keyValueIndexer` on the same pattern) rejects a non-string item before — row marked `code`.
-  (Seeded change C01-4 removed that rejection: caught by the oracle with a failing input.)
+* (until round 5: `transformKeyValue`'s `e.(string)` was reachable in the *model* of `Canonical` on any tree, and the
+  argument for the pipeline was "the first `EnforceUnicity` — its `keyValueIndexer` on the same pattern — rejects a
+  non-string item before".  Trying to PROVE that composition showed it false: `enforceUnicity` does not descend into
+  sequences, `transform` does and matches `*` against the `[]` step, so `services: [{build: {additional_contexts: [1]}}]`
+  with schema validation and extends skipped crashed the real loader.  Repaired in compose-go (`fix:` 717fb8d); the site
+  is gone from the code, from C03's model and from this statement.)
 * `checkFileObject` / `checkPath` / `checkDeviceRequest`: reachable on trees that did not pass the schema; in the pipeline
   `validation.Validate` runs under the same `!SkipValidation` test as `schema.Validate`, after it, and the schema allows
   only the asserted kind at the three patterns — rows marked `schema`, `Sites.schema_guards_hold`, `kindsAt_sound`.
@@ -59,15 +62,16 @@ theorem setDefaultValues_never_panics (tbl : List (List String × String)) (d : 
     C11.setDefaultValues tbl d ≠ .panic site :=
   setDefaults_never_panics tbl (.map d) TPath.root site
 
-/-- **Canonical**: on every tree the outcome is ok, err, or a panic at the single site `transformKeyValue` -/
-theorem canonical_only_panic_site (ign : Bool) (v : Val) (site : String)
-    (h : Short.canonical ign v = .panic site) : site = "transform.transformKeyValue" :=
-  transform_onlyKV ign v TPath.root site h
+/-- **Canonical**: on every tree, for either value of `ignoreParseError`, the outcome is ok or err -/
+theorem canonical_never_panics (ign : Bool) (v : Val) (site : String) : Short.canonical ign v ≠ .panic site :=
+  fun h => transform_onlyKV ign v TPath.root site h
 
-/-- … and that site needs a list with a non-string item under a `transformKeyValue` pattern: without one, no panic.
-(non-vacuity of the exception: the model does panic on `build.additional_contexts: [1]`) -/
+/-- the inputs that used to reach `e.(string)`: a non-string item under the `transformKeyValue` pattern, in a service
+of a mapping and in an element of a `services:` LIST (the shape `EnforceUnicity` never looks into) — errors now -/
 example : Short.canonical false (.map [("services", .map [("a", .map [("build", .map [("additional_contexts", .seq [.int 1])])])])])
-    = .panic "transform.transformKeyValue" := by rfl
+    = .err "type" := by rfl
+example : Short.canonical false (.map [("services", .seq [.map [("build", .map [("additional_contexts", .seq [.int 1])])]])])
+    = .err "type" := by rfl
 example : ∃ r, Short.canonical false (.map [("services", .map [("a", .map [("build", .map [("additional_contexts", .seq [.str "c=./d"])])])])])
     = .ok r := ⟨_, rfl⟩
 
@@ -77,15 +81,15 @@ theorem validate_only_panic_sites (t : Val) (site : String) (h : Validate.valida
     site ∈ ["validation.init.checkFileObject", "validation.checkPath", "validation.checkDeviceRequest"] :=
   validate_panic_site t site h
 
-/-- **the composition**: every stage that has a model is free of panics on EVERY tree — unconditionally for eleven
-stages, and up to the four named sites for `Canonical` and `validation.Validate` -/
+/-- **the composition**: every stage that has a model is free of panics on EVERY tree — unconditionally for twelve
+stages, and up to three named (schema-guarded) sites for `validation.Validate` -/
 theorem pipeline_stages_never_panic :
     (∀ raw s, convertTop raw ≠ .panic s) ∧
     (∀ c kvs s, Interp.interpolate c kvs ≠ .panic s) ∧
     (∀ base over s, Merge.extendService base over ≠ .panic s) ∧
     (∀ base over s, Merge.merge base over ≠ .panic s) ∧
     (∀ v s, Unicity.enforceTop v ≠ .panic s) ∧
-    (∀ ign v s, Short.canonical ign v = .panic s → s = "transform.transformKeyValue") ∧
+    (∀ ign v s, Short.canonical ign v ≠ .panic s) ∧
     (∀ pats m s, omitEmptyTop pats m ≠ .panic s) ∧
     (∀ tbl d s, C11.setDefaultValues tbl d ≠ .panic s) ∧
     (∀ t s, Validate.validate t = .panic s →
@@ -95,7 +99,7 @@ theorem pipeline_stages_never_panic :
     (∀ fs fuel main svcs name tr s, (Ext.resolve fs main fuel svcs name tr).1 ≠ .panic s) ∧
     (∀ fs fuel files inc s, Inc.loadModel fs fuel files inc ≠ .panic s) :=
   ⟨convertTop_total, interpolate_never_panics, C04.extendService_never_panics, C04.merge_never_panics,
-   C04.enforceTop_never_panics, canonical_only_panic_site, omitEmpty_total, setDefaultValues_never_panics,
+   C04.enforceTop_never_panics, canonical_never_panics, omitEmpty_total, setDefaultValues_never_panics,
    validate_only_panic_sites, Paths.resolve_never_panics, C11.normalize_never_panics,
    fun fs fuel main svcs name tr s => extends_never_panics fs fuel main svcs name tr s,
    fun fs fuel files inc s => Inc.loadModel_ne_panic fs fuel files inc s⟩
